@@ -9,6 +9,7 @@
   such a function changes the AST and breaks the proof obligation.
 
   Values     int | bool | str | None | enum member | list (tuples and lists are identified) | record
+             | dict (association list: `k in d`, `d[k]`, `d.get(k, default)`, `len(d)`, iteration over keys)
   Expr       literals, variables, attribute access (= field lookup), `+ - * // %` (ints; `+` also
              concatenates lists), unary minus, comparisons (`== != < <= > >= is is not in not in`),
              `and / or / not` with Python's operand-returning semantics and truthiness,
@@ -18,7 +19,9 @@
              and calls of EXTERNAL functions, whose meaning is a parameter `X` of the interpreter
              (supplied — and thereby documented — by the theorem that uses it).
   Stmt       assignment, tuple unpacking, `x[i] = e`, `if/elif/else`, `for x in it` (incl. `range`),
-             `return`, `yield` (appends to the output list), `raise`.
+             `return`, `yield` (appends to the output list), `raise`, inlined call of a nested helper.
+             `xs.append(v)` is `xs = xs + [v]`, `xs.remove(v)` is `xs = remove(xs, v)` (value semantics; the
+             translator rejects programs in which the difference to Python's shared mutable lists could show).
 
   Results    `.ok v` | `.raise exc` (a Python exception of the modelled semantics: IndexError,
              ZeroDivisionError, an explicit `raise`) | `.stuck` (outside the modelled semantics:
@@ -39,6 +42,9 @@ inductive Val where
   | enum (cls name : String)
   | list (xs : List Val)
   | record (fields : List (String × Val))
+  /-- a `dict` as an association list in insertion order (keys pairwise different; lookups take the first
+      entry whose key is `==` the wanted one) -/
+  | dict (kvs : List (Val × Val))
 
 inductive Res (α : Type) where
   | ok (a : α)
@@ -73,6 +79,8 @@ def Val.eqv : Val → Val → Option Bool
   | .list xs, .list ys => eqvList xs ys
   | .record _, _ => Option.none
   | _, .record _ => Option.none
+  | .dict _, _ => Option.none
+  | _, .dict _ => Option.none
   | _, _ => some false
 where
   eqvList : List Val → List Val → Option Bool
@@ -98,9 +106,12 @@ def Val.truthy : Val → Res Bool
     | some (.bool b) => .ok b
     | some _ => .stuck
     | Option.none => .ok true
+  | .dict kvs => .ok (!kvs.isEmpty)
 
+/-- the elements an iteration / a membership test ranges over: the items of a list, the KEYS of a dict -/
 def Val.asList : Val → Res (List Val)
   | .list xs => .ok xs
+  | .dict kvs => .ok (kvs.map (·.1))
   | _ => .stuck
 
 /-! ### syntax -/
@@ -115,6 +126,12 @@ deriving Repr, DecidableEq
 
 inductive Builtin where
   | len | int | bool | min | max | abs | range | list | reduceMul
+  /-- `sum(it)` of integers -/
+  | sum
+  /-- `xs.remove(v)` as a function: the list without its first element `== v` (`ValueError` if there is none) -/
+  | remove
+  /-- `d.get(k, default)` -/
+  | dictGet
 deriving Repr, DecidableEq
 
 inductive Expr where
@@ -151,6 +168,10 @@ inductive Stmt where
   | ret (e : Expr)
   | yield (e : Expr)
   | raise (exc : String)
+  /-- `x = h(…)` for a nested helper `h` whose (renamed-apart) body is `body`, inlined: the block is run in
+      the current state, its `return v` ends the BLOCK (not the enclosing function) and binds `x`;
+      falling off the end binds `None` -/
+  | inlineCall (x : String) (body : List Stmt)
 
 structure Fn where
   name : String
@@ -220,7 +241,16 @@ def cmpop (op : CmpOp) (x y : Val) : Res Val :=
   | .isIn => (y.asList.bind (memOf x)).map .bool
   | .notIn => (y.asList.bind (memOf x)).map fun b => .bool (!b)
 
-/-- `xs[i]` with Python's negative indices -/
+/-- `d[k]` / `d.get(k)`: the value of the first entry whose key is `== k` (`none` = no such key) -/
+def dictLookup (k : Val) : List (Val × Val) → Res (Option Val)
+  | [] => .ok Option.none
+  | (k', v) :: r =>
+    match Val.eqv k k' with
+    | some true => .ok (some v)
+    | some false => dictLookup k r
+    | Option.none => .stuck
+
+/-- `xs[i]` with Python's negative indices; `d[k]` on a dict (`KeyError`) -/
 def indexOf (v i : Val) : Res Val :=
   match v, i with
   | .list xs, .int n =>
@@ -229,6 +259,12 @@ def indexOf (v i : Val) : Res Val :=
     else match xs[k.toNat]? with
       | some x => .ok x
       | Option.none => .raise "IndexError"
+  | .dict kvs, k =>
+    match dictLookup k kvs with
+    | .ok (some x) => .ok x
+    | .ok Option.none => .raise "KeyError"
+    | .raise e => .raise e
+    | .stuck => .stuck
   | _, _ => .stuck
 
 def intsOf : List Val → Option (List Int)
@@ -238,9 +274,35 @@ def intsOf : List Val → Option (List Int)
     | some a, some r => some (a :: r)
     | _, _ => Option.none
 
+/-- `xs.remove(v)`: `none` = `v` is not in the list -/
+def removeFirst (v : Val) : List Val → Res (Option (List Val))
+  | [] => .ok Option.none
+  | x :: xs =>
+    match Val.eqv x v with
+    | some true => .ok (some xs)
+    | some false => (removeFirst v xs).map fun o => o.map fun r => x :: r
+    | Option.none => .stuck
+
 def builtin (f : Builtin) (args : List Val) : Res Val :=
   match f, args with
   | .len, [.list xs] => .ok (.int xs.length)
+  | .len, [.dict kvs] => .ok (.int kvs.length)
+  | .sum, [.list xs] =>
+    match intsOf xs with
+    | some l => .ok (.int (l.foldl (· + ·) 0))
+    | Option.none => .stuck
+  | .remove, [.list xs, v] =>
+    match removeFirst v xs with
+    | .ok (some r) => .ok (.list r)
+    | .ok Option.none => .raise "ValueError"
+    | .raise e => .raise e
+    | .stuck => .stuck
+  | .dictGet, [.dict kvs, k, dflt] =>
+    match dictLookup k kvs with
+    | .ok (some x) => .ok x
+    | .ok Option.none => .ok dflt
+    | .raise e => .raise e
+    | .stuck => .stuck
   | .int, [v] => match v.asInt with | some a => .ok (.int a) | Option.none => .stuck
   | .bool, [v] => v.truthy.map .bool
   | .abs, [.int a] => .ok (.int a.natAbs)
@@ -372,6 +434,11 @@ def exec (X : Ext) : Stmt → St → Flow
   | .ret e, st => withVal (eval X e st.env) fun v => .ret v st
   | .yield e, st => withVal (eval X e st.env) fun v => .next { st with out := st.out ++ [v] }
   | .raise exc, _ => .raise exc
+  | .inlineCall x body, st =>
+    match execBlock X body st with
+    | .next st' => .next (st'.set x .none)
+    | .ret v st' => .next (st'.set x v)
+    | r => r
 def execBlock (X : Ext) : List Stmt → St → Flow
   | [], st => .next st
   | s :: ss, st =>
